@@ -14,7 +14,12 @@ import (
 func init() { register("C16", checkC16) }
 
 func genC16(t *rapid.T) *Case {
-	pg := genPager(t)
+	var pg pagerPage
+	if rapid.IntRange(0, 3).Draw(t, "pagerkind") == 0 {
+		pg = genURLPager(t)
+	} else {
+		pg = genPager(t)
+	}
 	c := &Case{Property: "C16", HTML: pg.HTML}
 	c.Opts = OptSpec{URL: pg.PageURL, Algo: uint(rapid.IntRange(0, 1).Draw(t, "algo"))}
 	if rapid.IntRange(0, 9).Draw(t, "log") == 0 {
